@@ -33,6 +33,11 @@ theorem facts_authority :
 
 theorem facts_error : ("ErrNotAnAuthority", "3") ∈ Generated.errorsRegistry := by decide
 
+/-- the "validator removing itself" exception compares the bytes of the sender's account address with the bytes of the
+    validator's operator address — nothing else (no delegation, no record) makes a sender "the validator" -/
+theorem facts_self_removal : Generated.senderValidatorShape =
+    ["sdk.AccAddressFromBech32(sender)", "sdk.ValAddressFromBech32(expectedValidator)", "return from.Equals(expectedVal), nil"] := by decide
+
 /-- model of the authority resolution the facts above describe -/
 def resolveAuthority (envVar : String) (cfgModule : Option String) (moduleAddr : String → String) : String :=
   if envVar ≠ "" then envVar
